@@ -29,7 +29,11 @@ Binding (the real code is executed, TLC's values decide)
   (vii) part G: Matern with nu = p + 1/2 (p = 0..3): the four functions at r = z*len/(rescale*sqrt(nu))
         equal P_p(z) * exp(-z) with TLC's rational P_p(z) and exp(-z) = Exponential.correlation(z);
         nu = 1/2 equals the Exponential model of length len/sqrt(nu);
-  (viii) continuity in the shape parameters at integer / half-integer values (neighbours at -+2^-12).
+  (viii) continuity in the shape parameters at integer / half-integer values (neighbours at -+2^-12);
+  (ix)  part H: the spellings of a construction, (var | var_raw) x (len_scale | integral_scale scalar | list)
+        x rescale given / omitted x dim, on the 12 standard classes (var_factor = 1), the three TPL classes
+        and a user class overriding var_factor: var, var_raw, var_factor, sill, covariance(0), cov_nugget(0),
+        variogram(0), variogram(far tail), reported integral scale(s), len_scale, anis against TLC's values.
 """
 PROPERTIES = ("C03",)
 
@@ -154,6 +158,14 @@ def mc_text(tier, rng):
         # part G: Matern with nu = p + 1/2 at rational z
         "HalfP": "{0, 1, 2, 3}",
         "HalfZ": "{<<0, 1>>, <<1, 8>>, <<1, 4>>, <<1, 2>>, <<1, 1>>, <<3, 2>>, <<2, 1>>, <<3, 1>>, <<5, 1>>, <<8, 1>>}",
+        # part H: spellings of a construction
+        "CFams": '{"unit", "tpl", "user"}',
+        "CVars": "{<<2, 1>>, <<1, 2>>}",
+        "CNugs": "{<<0, 1>>, <<1, 1>>}",
+        "CLens": "{<<1, 2>>, <<2, 1>>, <<3, 1>>}" if big else "{<<1, 2>>, <<2, 1>>}",
+        "CInts": ("{<< <<3, 1>> >>, << <<1, 2>> >>, << <<1, 1>>, <<2, 1>> >>, << <<3, 1>>, <<3, 2>>, <<1, 2>> >>}"),
+        "CRes": "{<<0, 1>>, <<2, 1>>, <<1, 2>>}",
+        "CDims": "{1, 2, 3}",
     }
     mod = "---- MODULE MC_Derive ----\nEXTENDS Derive\n"
     mod += "".join("Mc%s == %s\n" % kv for kv in defs.items()) + "====\n"
@@ -1152,6 +1164,145 @@ def task_shape(job):
     return col.result()
 
 
+# ---------------------------------------------------------------------------
+# part H: the spellings of a construction
+
+# class -> (spec family, shape kwargs, integral scale needs a quadrature)
+CTOR_CLASSES = {
+    "Exponential": ("unit", {}, False), "Gaussian": ("unit", {}, False), "Stable": ("unit", {"alpha": 1.5}, False),
+    "Matern": ("unit", {"nu": 1.5}, False), "Integral": ("unit", {"nu": 2.5}, False), "Rational": ("unit", {"alpha": 2.0}, False),
+    "Spherical": ("unit", {}, True), "Cubic": ("unit", {}, True), "Circular": ("unit", {}, True),
+    "HyperSpherical": ("unit", {}, True), "SuperSpherical": ("unit", {"nu": 2.0}, True), "TPLSimple": ("unit", {"nu": 3.0}, True),
+    "TPLGaussian": ("tpl", {"hurst": 0.5, "len_low": 0.0}, True),
+    "TPLExponential": ("tpl", {"hurst": 0.5, "len_low": 0.0}, True),
+    "TPLStable": ("tpl", {"hurst": 0.5, "len_low": 0.0, "alpha": 1.5}, True),
+    "UserVarFactor": ("user", {}, True),
+}
+
+
+def ctor_class(name):
+    import gstools as gs
+
+    if name != "UserVarFactor":
+        return getattr(gs, name)
+
+    def cor(self, h):
+        return np.exp(-np.abs(np.asarray(h, dtype=np.double)))
+
+    def var_factor(self):
+        return 2.0 * self.len_scale / self.rescale
+
+    return type("UserVarFactor", (gs.CovModel,), {"cor": cor, "var_factor": var_factor})
+
+
+def ctor_kwargs(name, st, toggle):
+    opt = CTOR_CLASSES[name][1]
+    d = st["dim"]
+    kw = dict(dim=d, nugget=qf(st["nug"]), **opt)
+    kw[str(st["vs"])] = qf(st["v"])
+    if d > 1:
+        kw["anis"] = [qf(a) for a in st["an0"]]
+        kw["angles"] = [0.3, 1.1, 0.7][: d * (d - 1) // 2]
+    if tuple(st["r"]) != (0, 1):
+        kw["rescale"] = qf(st["r"])
+    if st["ls"] == "len":
+        kw["len_scale"] = qf(st["L"])
+    else:
+        I = [qf(x) for x in st["I"]]
+        kw["integral_scale"] = I[0] if (len(I) == 1 and toggle % 2) else I
+        if toggle // 2 % 2:
+            kw["len_scale"] = qf(st["L"])   # documented: ignored when integral_scale is given
+    return kw
+
+
+def ctor_observe(name, kw):
+    """Construct and read the derived quantities."""
+    cls = ctor_class(name)
+    with warnings.catch_warnings():
+        warnings.simplefilter("ignore")
+        m = cls(**kw)
+        far = 1.0e7 * max(1.0, float(m.len_scale))
+        z = np.array([0.0, far])
+        vg, cv, cn = (np.asarray(f(z), dtype=float) for f in (m.variogram, m.covariance, m.cov_nugget))
+        obs = {"var": float(m.var), "var_raw": float(m.var_raw), "var_factor": float(m.var_factor()), "sill": float(m.sill),
+               "nugget": float(m.nugget), "len_scale": float(m.len_scale), "rescale": float(m.rescale),
+               "anis": [float(a) for a in m.anis], "covariance(0)": float(cv[0]), "cov_nugget(0)": float(cn[0]),
+               "variogram(0)": float(vg[0]), "variogram(far)": float(vg[1]), "covariance(far)": float(cv[1])}
+        if "integral_scale" in kw:
+            obs["integral_scale"] = float(m.integral_scale)
+            obs["integral_scale_vec"] = [float(x) for x in m.integral_scale_vec]
+    return m, obs
+
+
+def task_ctor(job):
+    name, idx = job
+    fam, opt, slow = CTOR_CLASSES[name]
+    col = Collect()
+    cls = ctor_class(name)
+    tolq = 1e-6 if slow else TOL       # quantities that involve an integral scale found by quadrature
+    kappa = {}
+    for si in idx:
+        st = _G["ctor"][fam][si]
+        if name == "Linear" and st["dim"] > 1:
+            continue
+        kw = ctor_kwargs(name, st, si)
+        spell = "%s+%s" % (st["vs"], st["ls"])
+        try:
+            m, obs = ctor_observe(name, kw)
+        except Exception as e:  # noqa: BLE001
+            col.violation("ctor:%s:%s:raises" % (name, spell), "%s(%s) raised %r" % (name, kw, e),
+                          {"ctor": name, "kwargs": kw, "case": _pubst(st)})
+            continue
+        needk = any(st[f]["k"] for f in ("var", "raw", "len", "vf"))
+        if needk:
+            kk = (st["dim"], kw.get("rescale"))
+            if kk not in kappa:
+                with warnings.catch_warnings():
+                    warnings.simplefilter("ignore")
+                    ukw = dict(dim=st["dim"], len_scale=1.0, **opt)
+                    if "rescale" in kw:
+                        ukw["rescale"] = kw["rescale"]
+                    kappa[kk] = float(cls(**ukw).integral_scale)
+            kap = kappa[kk]
+        else:
+            kap = 1.0
+
+        def val(x):
+            return qf(x["q"]) * kap ** x["k"]
+
+        var, nug = val(st["var"]), qf(st["nug"])
+        exp = {"var": (var, st["var"]["k"]), "var_raw": (val(st["raw"]), st["raw"]["k"]),
+               "var_factor": (val(st["vf"]), st["vf"]["k"]), "sill": (var + nug, st["var"]["k"]), "nugget": (nug, 0),
+               "len_scale": (val(st["len"]), st["len"]["k"]), "anis": ([qf(a) for a in st["anis"]], 0),
+               "covariance(0)": (var, st["var"]["k"]), "cov_nugget(0)": (var + nug, st["var"]["k"]),
+               "variogram(0)": (nug, 0), "variogram(far)": (var + nug, 1), "covariance(far)": (0.0, 1)}
+        if "rescale" in kw:
+            exp["rescale"] = (kw["rescale"], 0)
+        if "integral_scale" in kw:
+            exp["integral_scale"] = (qf(st["int"]), 1)
+            exp["integral_scale_vec"] = ([qf(x) for x in st["vec"]], 1)
+        col.cases += 1
+        col.keys += 1
+        for k, (e, usesk) in exp.items():
+            tol = tolq if usesk else TOL
+            if k in ("variogram(far)", "covariance(far)"):
+                tol = max(1e-9, tolq if st["var"]["k"] else 0.0)
+            col.evals += 1
+            if differs(obs[k], e, tol).any():
+                col.violation("ctor:%s:%s:%s" % (name, spell, k),
+                              "%s(%s): %s is %r, expected %r (%s)"
+                              % (name, kw, k, obs[k], e,
+                                 "var = var_raw * var_factor; a variance given as var is the variance; a prescribed integral scale is reported"),
+                              {"ctor": name, "kwargs": kw, "case": _pubst(st), "kappa": kap,
+                               "expected": {a: b[0] for a, b in exp.items()}, "observed": obs})
+                break   # the first deviating quantity names the root cause; the others follow from it
+        if fam != "unit" and "integral_scale" in kw and st["vs"] == "var" and len(col.samples) < 1:
+            col.samples.append({"class": name, "kwargs": kw, "expected (TLC; k = power of the measured kappa)":
+                                {"var": st["var"], "var_raw": st["raw"], "len_scale": st["len"]},
+                                "observed": {a: obs[a] for a in ("var", "var_raw", "len_scale", "covariance(0)", "variogram(far)", "integral_scale")}})
+    return col.result()
+
+
 def _pubst(st):
     return json.loads(json.dumps(st, default=list))
 
@@ -1164,7 +1315,7 @@ def _dispatch(job):
     kind, payload = job
     try:
         return kind, {"user": task_user, "poly": task_poly, "relation": task_relation, "int": task_int,
-                      "hist": task_hist, "tpl": task_tpl, "half": task_half, "shape": task_shape}[kind](payload)
+                      "hist": task_hist, "tpl": task_tpl, "half": task_half, "shape": task_shape, "ctor": task_ctor}[kind](payload)
     except RecursionError:
         # evaluation of a model function does not terminate: the derivation of the missing
         # functions is cyclic (C03: every function bottoms out in a defined one)
@@ -1227,6 +1378,12 @@ def do_replay(path):
     rp = json.load(open(path))
     print("replaying", rp["key"], "\n ", rp["what"])
     r = rp["replay"]
+    if "ctor" in r:  # spelling of a construction
+        _m, obs = ctor_observe(r["ctor"], r["kwargs"])
+        print("  %s(%s)" % (r["ctor"], r["kwargs"]))
+        for k in obs:
+            print("   %-18s observed %r   expected %r" % (k, obs[k], r.get("expected", {}).get(k)))
+        return 0
     if "ops" in r and "init" in r:  # history of assignments
         sts = [{"isc": r["init"]}]
         hm = HistModel(r["class"], r["init"])
@@ -1301,6 +1458,11 @@ def run(pid, tier, seed, replay=None):
         "exp(-z) supplied by the Exponential model, lags z/sqrt(nu) mapped with a correctly rounded float sqrt, 1e-11); other nu only "
         "through continuity in the shape parameter: |f(s0) - mean of neighbours| <= |f(s0+e) - f(s0-e)| + 1e-6 at e = 2^-12, a smoothness "
         "relation between implementation outputs (special-cased shape values), not a value oracle",
+        "construction spellings: quantities that depend on a prescribed integral scale are TLC's rational times a power of kappa, the "
+        "integral scale of a freshly constructed unit-length model of the same code (1e-12; 1e-6 where that needs a quadrature); the "
+        "variance relations that do not involve kappa (var, covariance(0), sill when the variance is given as var) are exact (1e-12); "
+        "far tail = 1e7 * max(1, len_scale) at 1e-9; TPL classes with hurst = 1/2, len_low = 0 (var_factor = len_scale/rescale exactly); "
+        "JBessel is not constructed through integral_scale (the library refuses it)",
         "integral scale along histories: kappa(shape) is measured on a freshly constructed unit model of the same code, so the history "
         "relation decides staleness / coupling, not the value of kappa; quadrature classes (Spherical, SuperSpherical) at 1e-6",
         "the rotation convention used for *_spatial (planes xy, xz, yz; alternating signs; first angle first) is the "
@@ -1329,12 +1491,14 @@ def run(pid, tier, seed, replay=None):
              dict(workers=1, timeout=600, dump=("states", sc.path("tpl.dump")))),
             ("maternhalf", sc, "MC_Derive", cfg_part(cfg, "InitHalf", "Stutter", ["HalfSound"]),
              dict(workers=1, timeout=600, dump=("states", sc.path("half.dump")))),
+            ("ctor", sc, "MC_Derive", cfg_part(cfg, "InitCtor", "Stutter", ["CtorSound"]),
+             dict(workers=1, timeout=600, dump=("states", sc.path("ctor.dump")))),
         ]
         t0 = time.time()
-        results = tlc.run_many(jobs, parallel=8)
+        results = tlc.run_many(jobs, parallel=9)
         print("TLC: %d jobs in %.1fs" % (len(jobs), time.time() - t0))
         design_ok = True
-        for key in ("graph", "variant", "poly", "intscale", "inthist2", "inthist1", "tpl", "maternhalf"):
+        for key in ("graph", "variant", "poly", "intscale", "inthist2", "inthist1", "tpl", "maternhalf", "ctor"):
             r = results[key]
             tlc.must_pass(r, "Derive." + key)
             rep.add_tlc("Derive.%s" % key, r)
@@ -1352,6 +1516,7 @@ def run(pid, tier, seed, replay=None):
         istates = tlc.read_state_dump(sc.path("int.dump"))
         tstates = tlc.read_state_dump(sc.path("tpl.dump"))
         hstates = tlc.read_state_dump(sc.path("half.dump"))
+        cstates = tlc.read_state_dump(sc.path("ctor.dump"))
         hist = {}
         for nopt in (1, 2):
             nodes, edges, inits = tlc.read_dot(sc.path("hist%d.dot" % nopt))
@@ -1387,6 +1552,12 @@ def run(pid, tier, seed, replay=None):
     ints = sorted((st["isc"] for st in istates), key=lambda s: tlaval.to_tla(s))
     rng.shuffle(ints)
     tpls = sorted((st["vc"] for st in tstates), key=lambda c: tlaval.to_tla(c))
+    ctors = {}
+    for st in sorted((st["vc"] for st in cstates), key=lambda c: tlaval.to_tla(c)):
+        ctors.setdefault(str(st["fam"]), []).append(st)
+    for fam in ctors:
+        rng.shuffle(ctors[fam])
+    _G["ctor"] = ctors
     _G.update(tier=tier, kmax=kmax, ground=ground, poly=poly, polyraw=polyraw, groups=groups, int=ints, hist=hist, tpl=tpls,
               half=sorted((st["vc"] for st in hstates), key=lambda c: (c["p"], qf(c["z"]))),
               nspatial_value=40 if big else 6, nspatial_rel=1200 if big else 150)
@@ -1419,11 +1590,20 @@ def run(pid, tier, seed, replay=None):
         work.append(("half", (pp,)))
     for name in SHAPE_SPECIAL:
         work.append(("shape", (name,)))
+    # part H: every class of a family replays the family's constructions; classes whose integral scale needs a
+    # quadrature take a share of them in quick (the shares of a family together cover all its states)
+    for ci, (name, (fam, _opt, slow)) in enumerate(CTOR_CLASSES.items()):
+        n = len(ctors[fam])
+        stride = 1 if big else ({"unit": 6, "tpl": 9, "user": 1}[fam] if slow else 2)
+        idx = list(range(ci % stride, n, stride))
+        step = {"unit": 500, "tpl": 27, "user": 250}[fam] if not big else 90
+        for lo in range(0, len(idx), step):
+            work.append(("ctor", (name, idx[lo:lo + step])))
     only = os.environ.get("VERIF_ONLY")
     if only:
         work = [w_ for w_ in work if w_[0] in only.split(",")]
     # long tasks first
-    work.sort(key=lambda j: {"relation": 0, "hist": 1, "user": 2, "poly": 3, "int": 4, "tpl": 5, "half": 6, "shape": 7}[j[0]])
+    work.sort(key=lambda j: {"relation": 0, "hist": 1, "user": 2, "poly": 3, "int": 4, "tpl": 5, "half": 6, "shape": 7, "ctor": 1}[j[0]])
     import multiprocessing as mp
 
     t0 = time.time()
@@ -1439,10 +1619,10 @@ def run(pid, tier, seed, replay=None):
             for msg in res["drift"]:
                 rep.drift_msg(msg)
             for s in res["samples"]:
-                cap = {"user": 3, "poly": 2, "relation": 2, "int": 1, "hist": 2, "tpl": 2, "half": 2, "shape": 1}[kind]
+                cap = {"user": 3, "poly": 2, "relation": 2, "int": 1, "hist": 2, "tpl": 2, "half": 2, "shape": 1, "ctor": 3}[kind]
                 s = _jsonable_sample(dict(s, part=kind))
                 if s not in rep.samples and sum(1 for x in rep.samples if x.get("part") == kind) < cap:
-                    rep.sample(s, cap=20)
+                    rep.sample(s, cap=24)
     print("replay: %d tasks in %.1fs: %s" % (len(work), time.time() - t0, per_kind))
     base = 0
     for kind in sorted(per_kind):
@@ -1458,6 +1638,6 @@ def run(pid, tier, seed, replay=None):
     return rep.finish(
         level="model_checking",
         rule="traces = executions of one TLC-generated case on one real model (variant case x method, (model, parameter) table, "
-             "integral-scale case, observation point of an assignment history, TPL superposition case); evaluations = float comparisons; distinct non-trivial = distinct (TLC state, class / generated "
+             "integral-scale case, observation point of an assignment history, TPL superposition case, construction spelling); evaluations = float comparisons; distinct non-trivial = distinct (TLC state, class / generated "
              "subclass, parameter set) combinations on which at least one function of a real model was evaluated",
         exhaustive=False)
